@@ -50,7 +50,10 @@ def task_invokes(fx, b):
 
 def local_wrapper(t):
     """crate-local free async fn taking a future (the timeout wrapper) — identified by shape, not by name"""
-    return bool(t.get("callee_local")) and t.get("callee") and "impl{" in (t.get("destty") or "") and any("dyn core::future::future::Future" in a for a in t.get("argtys", []))
+    # (an argument that *is* a future — not one that merely mentions a future type somewhere, like the boxed task closure)
+    def is_future(a):
+        return a.startswith("core::pin::Pin<alloc::boxed::Box<dyn core::future::future::Future") or a.startswith("impl Future") or a.startswith("impl core::future::future::Future")
+    return bool(t.get("callee_local")) and t.get("callee") and "impl{" in (t.get("destty") or "") and any(is_future(a) for a in t.get("argtys", []))
 
 
 def lifecycle_alphabet():
@@ -95,7 +98,7 @@ def loop_family(fx, f, depth=2):
         return out
     for g in list(out):
         for _bi, t in Body(g).normal_calls():
-            h = fx.fn(t.get("resolved") or t.get("callee") or "")
+            h = fx.callee_fn(t)
             if h is None or h["kind"] not in ("fn", "assoc_fn") or h.get("impl_trait"):
                 continue
             if h.get("is_async"):
@@ -127,6 +130,24 @@ def find_loops(fx):
             continue
         is_stream = any(trait_method(T_SH, "handle")(t) for t in calls)
         out.append((f, "stream" if is_stream else "plain"))
+    return out
+
+
+def payload_ctors(fx):
+    """functions that make a Payload::Task and hand it back: `Payload::task` itself and constructors layered on it
+    (`Payload::deliver(msg) = Self::task(..)`); their call sites are where payloads come into being"""
+    out = {"environment::payload::Payload::<A>::task"}
+    changed = True
+    while changed:
+        changed = False
+        for f in fx.d["fns"]:
+            if f["def"] in out or f["kind"] not in ("fn", "assoc_fn") or f.get("is_async") or not (f.get("output") or "").startswith(PAYLOAD + "<"):
+                continue
+            b = Body(f)
+            os_ = b.origins([0])
+            if os_ and all(o.kind == "call" and not o.proj and (b.call_at(o).get("resolved") or b.call_at(o).get("callee")) in out for o in os_):
+                out.add(f["def"])
+                changed = True
     return out
 
 
